@@ -1,4 +1,8 @@
-"""Per-property configuration of bin/check."""
+"""Per-property configuration of bin/check: one JSON file per property in bin/props.d/
+({"props": {...}, "texts": {...}}), so that parallel work does not conflict."""
+import glob
+import json
+import os
 
 COMMON_TRUSTED = [
     "Lean 4.33.0 kernel (thorough tier: re-checked with leanchecker)",
@@ -7,66 +11,11 @@ COMMON_TRUSTED = [
     "corr harness (harness/cmd/corr) and Lean driver codec (lean/Driver): correspondence and canonicalisation",
 ]
 
-PROPS = {
-    "C15": {
-        "lean": ["UgoVerif.Props.C15"],
-        "gen": ["Numeric.lean", "NumericSimp.lean"],
-        "streams": ["ops"],
-        "required_theorems": ["equal_comm", "neq_not_eq", "binop_no_panic", "trichotomy",
-                              "le_iff_lt_or_eq", "lt_flip"],
-        "trusted": [
-            "hand model Model/Ops.lean (Array/Map Equal and BinaryOp recursion, dispatch on the left operand) tied by stream `ops`",
-            "FloatOps: float + - * / and int->float conversions are parameters; theorems hold for every instance",
-        ],
-        "assumptions": [
-            "IEEE-754 comparison is the bit-pattern definition Go.feq/flt/fle (validated against Go on the boundary pool by stream `ops`)",
-            "user-defined Object implementations, *SyncMap and *RuntimeError are outside the modelled value set",
-            "trichotomy assumes int/uint->float conversions never produce NaN (FloatOps.ConvNoNaN)",
-        ],
-    },
-    "C07": {
-        "lean": ["UgoVerif.Props.C07"],
-        "gen": ["VmWrites.lean"],
-        "streams": ["history"],
-        "timeout": 3000,
-        "required_theorems": ["prologue_live", "prologue_live_cleared", "bytecode_immutable", "step_keeps_bytecode",
-                              "no_shared_store_outside_allowlist", "lifting_run",
-                              "run_history_independent_cleared_partial", "run_history_independent_partial",
-                              "rerun_same_partial"],
-        "partial": [
-            {"theorem": "run_history_independent_cleared_partial / run_history_independent_partial / rerun_same_partial",
-             "missing_hypothesis": "StepLive F R and PanicLive R: one instruction (`step`, all 44 opcodes incl. their panic paths) and `handlePanic`/`throwF` preserve the liveness relation R (liveEqS after Clear, liveEq after SetBytecode alone). Proved: prologue_live for ANY residue state, the lifting through loopF / recovered-panic reruns / clearCurrentFrame / the epilogue for every fuel (lifting_run), clearCurrentFrame and abort preserve liveEq. C07_full is the statement without the two hypotheses."},
-            {"theorem": "bytecode_immutable", "missing_hypothesis": "full for codes/consts/mainFn/numModules; that constant FUNCTION CELLS in the heap are never overwritten (heapSet targets are box/array/map/iterator cells) is not a theorem: execSetLocal/execSetFree write `heapSet a (.box v)` without re-checking the cell kind, which needs a heap-typing invariant. Covered structurally (VmWrites: no store to fn.Free/Instructions/SourceMap in vm.go) and dynamically (history stream: structural dump incl. identities + encoder image of every Bytecode before/after)."},
-        ],
-        "trusted": [
-            "hand model VM/{Types,Base,Step,Run,Reset}.lean of vm.go tied by the lock-step `vmtrace` stream and by `history` (chained runs on one model state: outcome, instruction count, H1 trace hash, globals of EVERY run of the history + the model's own new-VM run)",
-            "goextract vmwrites.go: syntactic store extraction (go/ast); stores through local aliases are only seen through the alias' own selector path",
-        ],
-        "assumptions": [
-            "SetBytecode without Clear: bytecode that reads stack slots at or above sp (hand-made, never emitted by the compiler) sees the previous run's stack on the real VM and in the model; outside the claim (the cleared case holds for every bytecode)",
-            "map iteration order excluded by the statement; the model runs for-in only over maps with <= 1 key",
-            "the encoder oracle compares the decoded image of the encoder's bytes (raw bytes differ between two encodings of one Bytecode: source maps and Map constants are written in Go map iteration order)",
-        ],
-    },
-    "C08": {
-        "lean": ["UgoVerif.Props.C08"],
-        "gen": ["VmWrites.lean"],
-        "streams": ["concurrent"],
-        "timeout": 3000,
-        "required_theorems": ["no_shared_write", "shared_stays_shared", "steps_commute", "independent",
-                              "race_free_partial", "C08_model", "stores_allowlisted", "fileset_lookups_pure"],
-        "partial": [
-            {"theorem": "race_free_partial / C08_model",
-             "missing_hypothesis": "the shared region of the model is codes + consts + bytecode header; heap objects referenced by constants (builtin-module Map constants, function cells) live in each model VM's own heap, and OpStoreModule's Copy() of containers is outside the model (`unsupported`), so copy_fresh is not a theorem. Those parts rest on the regenerated store table (stores_allowlisted, fileset_lookups_pure), the builtin-module privacy probe and the race detector in stream `concurrent`."},
-        ],
-        "trusted": [
-            "the Go memory model, sync.Pool, sync.Mutex and atomics (sequentially consistent)",
-            "Go race detector (child process built with -race; if the race build is unavailable the evidence says so under race-build-unavailable)",
-            "hand model VM/*.lean tied by `vmtrace`; solo runs of scripts inside the modelled subset are compared with the model in `concurrent`",
-        ],
-        "assumptions": [
-            "non-Copier objects an embedder puts into a builtin module are outside the claim",
-            "interleaving granularity of the model is one VM instruction; VMs have disjoint State values by construction, sharing is represented by equal codes/consts fields which no instruction assigns (C07 bytecode_immutable)",
-        ],
-    },
-}
+_D = os.path.join(os.path.dirname(os.path.abspath(__file__)), "props.d")
+PROPS = {}
+TEXTS = {}
+for _f in sorted(glob.glob(os.path.join(_D, "*.json"))):
+    _pid = os.path.basename(_f)[:-5]
+    _j = json.load(open(_f))
+    PROPS[_pid] = _j["props"]
+    TEXTS[_pid] = _j["texts"]
